@@ -32,7 +32,10 @@ REGISTRY = dict(
           "= exp(op)v) is stated, not proved. FINDING D20-C07 (open, class krylov-early-accept-avnorm): the unchanged code "
           "violates the accuracy clause inside the quantifier when the start vector is nearly an eigenvector of the "
           "dominant part (err2 uses |op v_j| instead of Expokit's |op v_{j+1}|): kernel-checked exact model run "
-          "(early_accept_witness) + replay on the real code against scipy on every run."),
+          "(early_accept_witness) + replay on the real code against scipy on every run. FINDING D21-C07 (open, class "
+          "krylov-accept-err1-ignores-err2): err = err1 whenever err1 < err2 lets a vanishing err1 (exp(alpha) ~ 1) override "
+          "err2 >= tol; witness replayed on every run. The public krylov_exp is modelled with its own parameter list and "
+          "driven with distinct tolerances in both orders (public_krylov_exp_uses_callers_tolerances)."),
     note=("Trusted: Lean kernel + propext/Classical.choice/Quot.sound; Mathlib; hand-written Model.Krylov tied to the "
           "code by the tape-driven and dense correspondence of each run; torch.linalg.matrix_exp, Tensor.norm, "
           "tensordot and binary64 rounding are outside the theorems; the accuracy clause rests on differential "
@@ -161,6 +164,28 @@ def gen_weak_case(rng):
 
 
 KNOWN_CLASS = "krylov-early-accept-avnorm"
+KNOWN_CLASS_ERR1 = "krylov-accept-err1-ignores-err2"
+
+
+def witness_case_err1():
+    """D21-C07: uniform energy offset with E*dt = 2*pi -> err1 = n2*|phi_1| vanishes, err2 is ignored."""
+    a = -1j * (2 * np.pi * np.eye(4) + 1e-4 * np.diag([1.0, -1.0, 2.0, -2.0]))
+    return dict(cls="herm", sub="witness-phase-2pi", n=4, a=a.astype(complex), v=np.array([1, 1, 1, 1], dtype=complex) / 2,
+                shape=(4,), herm=True, tol=1e-9, norm_tol=1e-9, md=100)
+
+
+def gen_phase_case(rng):
+    """-i*(E*I + eps*V) with E = 2*pi*k (k = 1, 2): a uniform offset times dt on a multiple of 2*pi."""
+    g = np.random.default_rng(rng.getrandbits(48))
+    n = rng.randint(2, 24)
+    m = g.normal(size=(n, n)) + 1j * g.normal(size=(n, n))
+    k = rng.choice([1, 1, 2])
+    off = 2 * np.pi * k * (1 + rng.choice([0.0, 0.0, 1e-9, 1e-6, 1e-3]))
+    a = -1j * (off * np.eye(n) + 10 ** rng.uniform(-6, -3) * (m + m.conj().T) / 2)
+    v = g.normal(size=n) + 1j * g.normal(size=n)
+    tol = 10 ** rng.uniform(-12, -7)
+    return dict(cls="herm", sub="phase2pi", n=n, a=a, v=v, shape=(n,), herm=rng.random() < 0.7, tol=tol, norm_tol=tol,
+                md=rng.choice([20, 50, 100]))
 
 
 def witness_case():
@@ -177,6 +202,10 @@ def classify(case, r, its):
     if r is None or not r.converged or r.happy_breakdown:
         return None
     j = r.iteration_count - 1
+    col0 = its[j]["mexp"][1][:, 0]
+    e1_, e2_ = abs(col0[j + 1]), abs(col0[j + 2] * its[j]["n"])
+    if e1_ < e2_ and not e2_ < case["tol"]:
+        return KNOWN_CLASS_ERR1        # D21: accepted on err1 alone although err2 says "not converged"
     c2 = dict(case, tol=-1.0, md=j + 2)
     kind2, r2, rec2 = run_impl(c2)
     pe = parse_events(rec2.events) if kind2 == "ok" else None
@@ -242,6 +271,76 @@ def run_public(case):
     except UnboundLocalError:
         return "raise unbound", None
     return "ret", r
+
+
+def run_public_rec(case):
+    """The PUBLIC krylov_exp, recorded; arguments by keyword or positionally in the order of ITS signature
+    (op, v, exp_tolerance, norm_tolerance, is_hermitian, max_krylov_dim)."""
+    from emu_base.math.krylov_exp import krylov_exp
+    a = torch.from_numpy(np.ascontiguousarray(case["a"])).to(torch.complex128)
+    v = torch.from_numpy(np.ascontiguousarray(case["v"])).to(torch.complex128).reshape(case["shape"])
+    n = case["n"]
+    rec = Recorder()
+    op = rec.wrap_op(lambda x: (a @ x.reshape(n, -1)).reshape(x.shape))
+    try:
+        with rec.recording():
+            if case.get("positional"):
+                r = krylov_exp(op, v.clone(), case["tol"], case["norm_tol"], case["herm"], case["md"])
+            else:
+                r = krylov_exp(op, v.clone(), exp_tolerance=case["tol"], norm_tolerance=case["norm_tol"],
+                               is_hermitian=case["herm"], max_krylov_dim=case["md"])
+    except RecursionError:
+        return "raise recursion", None, rec
+    except UnboundLocalError:
+        return "raise unbound", None, rec
+    return "ret", r, rec
+
+
+def gen_pub_case(rng, tier):
+    """Public-wrapper stream: exp_tolerance and norm_tolerance DISTINCT, in both orders (sometimes equal)."""
+    c = gen_case(rng, tier)
+    if c["n"] > 64:
+        c = gen_case(rng, "quick")
+    order = rng.choice(["norm>>exp", "norm>>exp", "norm<<exp", "equal"])
+    c["tol"] = 10 ** rng.uniform(-12, -6)
+    if order == "norm>>exp":
+        c["norm_tol"] = min(c["tol"] * 10 ** rng.uniform(2, 6), 1e-2)
+    elif order == "norm<<exp":
+        c["norm_tol"] = c["tol"] * 10 ** rng.uniform(-6, -2)
+    else:
+        c["norm_tol"] = c["tol"]
+    c["order"] = order
+    c["positional"] = rng.random() < 0.5
+    return c
+
+
+def oracle_public_run(case, pk, res, its):
+    """C07 on what the PUBLIC entry point hands back, against the tolerances THE CALLER passed: returned
+    without raising => within 10*exp_tolerance*|v| (+rounding) of expm(A)v, unless the run ended in a happy
+    breakdown as the caller understands it (last n2 < the norm_tolerance he passed)."""
+    if pk != "ret":
+        return None
+    breakdown = bool(its) and its[-1]["n2"] < case["norm_tol"]
+    if breakdown:
+        return None
+    e = scipy.linalg.expm(case["a"])
+    ref = e @ case["v"]
+    got = res.reshape(-1).numpy()
+    nv = float(np.linalg.norm(case["v"]))
+    thr = 10 * case["tol"] * nv + 1e-9 * max(1.0, float(np.linalg.norm(e, 2))) * nv
+    err = float(np.linalg.norm(got - ref))
+    if not err <= thr:
+        return (f"krylov_exp(exp_tolerance={case['tol']:.3e}, norm_tolerance={case['norm_tol']:.3e}) returned without raising and "
+                f"without happy breakdown (last n2={its[-1]['n2'] if its else None!r}) but |result-expm(A)v|={err:.3e} > "
+                f"10*tol*|v|+rounding={thr:.3e}")
+    return None
+
+
+def pub_tape_line(case, n0, its):
+    return " ".join(["kry.exppub", f2b(case["tol"]), f2b(case["norm_tol"]), "1" if case["herm"] else "0", str(case["md"]),
+                     f2b(n0), l1(f2b(t["n"]) for t in its), l1(f2b(t["n2"]) for t in its),
+                     l2([[cx(z) for z in t["ovs"]] for t in its]),
+                     l2([[cx(z) for z in t["mexp"][1][:, 0]] for t in its])])
 
 
 def parse_events(ev):
@@ -451,8 +550,6 @@ def check(rep: Report, tier: str, seed: int) -> None:
         rep.hist("dim_bucket", 1 << max(case["n"] - 1, 0).bit_length())
         lines.append(tape_line("kry.exp", case, n0, its))
         metas.append(("tape", case, kind, r, rec, its))
-        lines.append(tape_line("kry.exppub", case, n0, its))
-        metas.append(("pub", case, kind, r, rec, its))
         if dense:
             lines.append(" ".join(["kry.expd", "1" if case["herm"] else "0", f2b(case["tol"]), f2b(case["norm_tol"]),
                                    str(case["md"]), mat_line(case["a"]), l1(cx(z) for z in case["v"]),
@@ -460,6 +557,9 @@ def check(rep: Report, tier: str, seed: int) -> None:
             metas.append(("dense", case, kind, r, rec, its))
 
     add(witness_case())
+    add(witness_case_err1())
+    for i in range(10 if tier == "quick" else 150):
+        add(gen_phase_case(rng))
     for i in range(n_or):
         add(gen_case(rng, tier))
     for i in range(25 if tier == "quick" else 400):
@@ -474,6 +574,33 @@ def check(rep: Report, tier: str, seed: int) -> None:
         c["shape"] = (c["n"],)
         c["in_class"] = False
         add(c, dense=True)
+    def add_pub(case):
+        try:
+            pk, res, rec = run_public_rec(case)
+        except Exception as ex:
+            rep.fail(f"real krylov_exp raised {type(ex).__name__}: {ex}", _ser(case))
+            return
+        pe = parse_events(rec.events) if rec.events and case["md"] > 0 else ((rec.events[0][1], []) if rec.events else None)
+        if pe is None:
+            rep.broke("correspondence (public): kernel-call schedule not recognised: " + json.dumps([x[0] for x in rec.events][:40]))
+            return
+        n0, its = pe
+        msg = oracle_public_run(case, pk, res, its)
+        if msg:
+            klass = None
+            if its:     # the known early-accept defect shows through the wrapper as well
+                k2, r2, rec2 = run_impl(case)
+                pe2 = parse_events(rec2.events) if k2 == "ok" else None
+                klass = classify(case, r2, pe2[1]) if pe2 else None
+            rep.fail(msg, dict(_ser(case), public=True, positional=bool(case.get("positional"))), klass=klass)
+            rep.hist("oracle_failures", klass or "unclassified")
+        rep.hist("public_order", case["order"] + ("/positional" if case.get("positional") else "/keyword"))
+        rep.hist("public_exit", pk)
+        lines.append(pub_tape_line(case, n0, its))
+        metas.append(("pub", case, pk, None, rec, its))
+
+    for i in range(70 if tier == "quick" else 800):
+        add_pub(gen_pub_case(rng, tier))
     rep.extra["worst_error_over_threshold"] = round(worst, 6)
 
     import time as _t
@@ -490,16 +617,20 @@ def check(rep: Report, tier: str, seed: int) -> None:
         if reply is None:
             continue
         if mode == "pub":
-            want = "raise unbound" if kind == "unbound" else ("ret" if r.converged else "raise recursion")
-            rep.case(key=None, nontrivial=False)
-            if reply != want:
-                # the wrapper's decision follows the impl's flag; only judge when the flag itself was comparable
-                m = parse_model(replies[idx - 1])
-                if near_tie(case, m):
+            rep.case(key=("pub", case["n"], f2b(case["tol"]), f2b(case["norm_tol"]), case["md"]), nontrivial=len(its) >= 2)
+            if reply != kind:
+                # the model recomputes abs()/the err formula: judge only away from the threshold
+                errs = [(abs(t["mexp"][1][j + 1, 0]), abs(t["mexp"][1][j + 2, 0] * t["n"]))
+                        for j, t in enumerate(its) if t["mexp"][1].shape[0] == j + 3]
+                if near_tie(case, dict(errs=errs)):
                     rep.count("near_ties")
                     continue
                 dis += 1
-                rep.broke(f"correspondence krylov_exp (public) model={reply} real={want}: " + json.dumps(_ser(case))[:300])
+                if dis <= 5:
+                    rep.broke(f"correspondence Model.Krylov.krylovExpPublic vs krylov_exp (exp_tolerance={case['tol']:.3e}, "
+                              f"norm_tolerance={case['norm_tol']:.3e}, {'positional' if case.get('positional') else 'keyword'}): "
+                              f"model={reply} real={kind} after {len(its)} iterations; case="
+                              + json.dumps({k: v for k, v in _ser(case).items() if not k.startswith(("a_", "v_"))}))
             continue
         m = parse_model(reply)
         key = (case["n"], f2b(case["tol"]), case["md"], cx(its[0]["ovs"][0]) if its and its[0]["ovs"] else "-")
@@ -582,16 +713,33 @@ def search(rep: Report, seed: int, n: int, tier: str) -> None:
         if msg:
             rep.fail(msg, _ser(case))
             return
+        if i % 2 == 0:
+            pc = gen_pub_case(rng, tier)
+            pk, res, prec = run_public_rec(pc)
+            pe = parse_events(prec.events) if prec.events else None
+            msg = oracle_public_run(pc, pk, res, pe[1] if pe else [])
+            if msg:
+                rep.fail(msg, dict(_ser(pc), public=True, positional=bool(pc.get("positional"))))
+                return
     rep.extra["search_cases"] = n
+
+
+def _replay_one(d):
+    case = _unser(d)
+    if d.get("public"):
+        case["positional"] = bool(d.get("positional"))
+        pk, res, rec = run_public_rec(case)
+        pe = parse_events(rec.events) if rec.events else None
+        return oracle_public_run(case, pk, res, pe[1] if pe else [])
+    kind, r, rec = run_impl(case)
+    return oracle(case, kind, r, rec) or oracle_public(case, r)
 
 
 def replay(rep: Report, path: str) -> int:
     data = json.load(open(path))
     bad = 0
     for f in data.get("failing_inputs", []):
-        case = _unser(f["data"])
-        kind, r, rec = run_impl(case)
-        msg = oracle(case, kind, r, rec) or oracle_public(case, r)
+        msg = _replay_one(f["data"])
         print("replay:", msg or "property holds on this input now")
         bad += bool(msg)
     return 1 if bad else 0
